@@ -4,6 +4,9 @@ A reflexive, conditional one-to-one association R2 (phrases 'precedes' / 'succee
 Arrangements of n instances into ordered chains are built through the API (relate consecutive members),
 then xtuml.sort_reflexive is called on QuerySets holding the members in several orders, across both phrases.
 
+Construction routes: the API, and (family `loaded`) xtuml.ModelLoader: instances and chain / ring links are written as
+SQL text (rows with explicit Id and Next_Id / Other_Id values) and loaded; edits and sorts run on the loaded model.
+
   D  from the construction recipe (the harness knows the chains it built): whole-chain sets come back as
      every member exactly once, each chain contiguous, starting at the member without partner across the
      phrase and following the opposite phrase; chains in the set-order of those starting members; the other
@@ -22,9 +25,11 @@ RULE = ('exhaustive: every arrangement of n labelled instances into ordered chai
         '4051, 37633 for n = 1..7; quick n <= 6, thorough n <= 7), each sorted across both phrases with the set in '
         'creation order and in one permuted order; every ring of n <= 6 (thorough 7) instances in every cyclic order; '
         'arbitrary subsets and ring+chain mixtures for termination; random sets of 50-500 instances. Non-trivial: a '
-        'chain of >= 2 members or a ring; distinct = distinct (arrangement, set order, phrase)')
+        'chain of >= 2 members or a ring; distinct = distinct (arrangement, set order, phrase); family `loaded`: a sample of all of '
+        'these with the arrangement loaded from SQL text by xtuml.ModelLoader instead of built with relate()')
 EXHAUSTIVE = {'quick': True, 'thorough': True}
-ASSUMPTIONS = ['the association is reflexive, conditional 1:1 with two distinct phrases; chains are built with relate()']
+ASSUMPTIONS = ['the association is reflexive, conditional 1:1 with two distinct phrases; chains are built with relate() or '
+               '(family loaded) loaded from SQL text']
 CHUNK = 1500
 CASE_TIMEOUT_S = 10
 SCHEMA = mc.SHAPES['reflexive']
@@ -98,6 +103,12 @@ def case_ops(case):
     fwd_b = PHRASES[sch].get('R7', ('leads',))[0]
     ops = build_ops(case['n'], case['chains'], case['rings'], case.get('edits', ()), case.get('chains_b', ()), fwd_b)
     k = len(ops) - len(case.get('edits', ()))
+    if case.get('route') == 'sql':
+        # the arrangement (everything before the edits) is loaded from SQL text: the same links in the order the loader makes them
+        pre = mc.canonical_prefix(SCHEMAS[sch], ops[:k])
+        if len(pre) != k:
+            raise ValueError('the recipe holds links the text cannot express: %r' % (ops[:k],))
+        ops = pre + ops[k:]
     rejected = set(k + i for i, e in enumerate(case.get('edits', ())) if e[0] == 'tryrelate')
     return ops, rejected
 
@@ -143,6 +154,29 @@ def structure_after(case):
 
 
 def generate(ctx):
+    """every case of _generate; a sample of them is run a second time with the arrangement (instances and chain / ring links,
+    everything before the edits) LOADED FROM SQL TEXT by xtuml.ModelLoader instead of built through the API (family `loaded`:
+    'route': 'sql', 'prefix': number of ops loaded); the edits and the sorts then run on the loader-built model"""
+    lr = ctx.rng.fork('loaded')
+    quota = {'chains': ctx.pick(250, 3000), 'ring': ctx.pick(80, 800), 'mix': ctx.pick(60, 600), 'edited': ctx.pick(250, 3000),
+             'two': ctx.pick(120, 1500), 'big': ctx.pick(3, 30), 'empty': 1}
+    for case in _generate(ctx):
+        yield case
+        if case['n'] == 0:
+            continue
+        # small arrangements are many: take them with a probability that favours the larger ones
+        p = {'chains': 0.03 if case['n'] >= 6 else 0.3, 'ring': 0.15, 'mix': 0.5, 'edited': 0.2, 'two': 0.25, 'big': 0.3}[case['fam']]
+        if quota[case['fam']] > 0 and lr.random() < p:
+            quota[case['fam']] -= 1
+            c = dict(case)
+            c['via'] = case['fam']
+            c['fam'] = 'loaded'
+            c['route'] = 'sql'
+            c['prefix'] = len(case_ops(case)[0]) - len(case.get('edits', ()))
+            yield c
+
+
+def _generate(ctx):
     nmax = ctx.pick(6, 7)
     rng = ctx.rng.fork('c16')
     yield {'n': 0, 'chains': [], 'rings': [], 'sorts': [[[], 'R2', 'precedes'], [[], 'R2', 'succeeds']], 'fam': 'empty'}
@@ -325,10 +359,13 @@ def expected(case, order, phrase, rel='R2'):
 
 def run_impl(case):
     sch = case.get('schema', 'r1')
-    model = mc.Model(SCHEMAS[sch])
     ops, rejected = case_ops(case)
+    k0 = (len(ops) - len(case.get('edits', ()))) if case.get('route') == 'sql' else 0
+    model = mc.Model.from_sql(SCHEMAS[sch], ops[:k0]) if k0 else mc.Model(SCHEMAS[sch])
     obs, fails = [], []
     for i, op in enumerate(ops):
+        if i < k0:
+            continue
         out = model.apply(op)
         if i in rejected:
             if str(out) == 'ok':
@@ -337,6 +374,9 @@ def run_impl(case):
         elif str(out) != 'ok':
             # every op of the recipe is legal on the structure built so far: a refusal is a finding, not a harness error
             fails.append({'sig': 'recipe-op-rejected', 'what': 'the legal operation %s was refused with %s after %s' % (op, out, ops[:i])})
+    for (i, key, v) in model.ref_copies():
+        fails.append({'sig': 'referential-copy-in-dict', 'what': 'instance %d keeps %r = %r in its own dictionary although the '
+                      'attribute is referential (route %s)' % (i, key, v, case.get('route', 'api'))})
     sets = {}
     for (order, rel, ph) in case['sorts']:
         # the SAME QuerySet object is handed to every sort of the case that uses this member order: sorting must not
@@ -379,8 +419,8 @@ def run_impl(case):
     else:
         stats_extra = {}
     return {'obs': obs, 'd_fail': fails[:3], 'nontrivial': nontrivial,
-            'key': dumps([str(case['chains']), str(case['rings']), str(case['sorts'])]),
-            'stats': dict({'fam_' + case['fam']: 1, 'sorts': len(case['sorts'])}, **stats_extra)}
+            'key': dumps([str(case['chains']), str(case['rings']), str(case['sorts']), case.get('route', 'api')]),
+            'stats': dict({'fam_' + case['fam']: 1, 'sorts': len(case['sorts']), 'route_sql': 1 if k0 else 0}, **stats_extra)}
 
 
 def model_line(case):
